@@ -122,7 +122,7 @@ func init() {
 		Title: "Closed solutions are a canonical, non-overlapping polygon set",
 		Rule: "the closed boolean scopes of C01 plus the unit embedding, x 16 (clip type, fill rule) x {preserveCollinear, reverseSolution} in {on,off}^2 (set through the verif hook; the non-default option settings on every optStride-th input); " +
 			"oracle per solution: every path has >= 3 vertices and no equal cyclic neighbours; total winding number (exact scan) in {0,1} ({-1,0} when reversed) at every witness > 2 units from every solution edge; reversed solution covers the same region with negated signed area; Union(solution,NonZero) is region-equal to the solution (every 8th input). non-trivial = input with a non-empty solution whose winding was examined",
-		Assumptions: []string{"small-scope hypothesis as in C01", "winding outside {0,1} confined to the 2-unit band of solution edges is allowed by the statement and not reported"},
+		Assumptions:      []string{"small-scope hypothesis as in C01", "winding outside {0,1} confined to the 2-unit band of solution edges is allowed by the statement and not reported"},
 		RequiredCounters: []string{"inputs_with_nonempty_solution", "reunion_checked", "solutions_with_several_paths"},
 		Scopes: func(tier string) []*drv.Scope {
 			var out []*drv.Scope
